@@ -2,6 +2,7 @@ package exec
 
 import (
 	"context"
+	"errors"
 	"fmt"
 
 	"github.com/theory/sqljson/path/ast"
@@ -68,7 +69,11 @@ func (exec *Executor) executeUnaryBoolItem(
 			return predTrue, nil
 		}
 	case ast.UnaryIsUnknown:
-		res, _ := exec.executeBoolItem(ctx, node.Operand(), value, false)
+		res, err := exec.executeBoolItem(ctx, node.Operand(), value, false)
+		if ctxErr := ctx.Err(); err != nil && ctxErr != nil && errors.Is(err, ctxErr) {
+			// Cancellation is not an "unknown" outcome.
+			return predUnknown, err
+		}
 		return predFrom(res == predUnknown), nil
 	case ast.UnaryExists:
 		if exec.strictAbsenceOfErrors() {
